@@ -229,7 +229,7 @@ pub fn run(out: &mut Out, seed: u64, tier: &str) {
     let mut larges: Vec<Mol> = vec![];
     for (k, n_c) in [60usize, 61, 75].iter().enumerate() { if tier == "thorough" || k == 0 { larges.push(distort(&alkane(*n_c), 0.02, &mut rng)); } }
     for (k, side) in [6usize, 7, 8].iter().enumerate() {
-        if tier != "thorough" && k != 1 { continue; }
+        if tier != "thorough" && k == 0 { continue; }
         let mut m = library()[0].clone();
         for p in m.xs.iter_mut() { p[0] -= 3.1; p[1] -= 2.9; p[2] -= 3.3; }
         for a in 0..*side { for b in 0..*side { for c in 0..*side { m.zs.push(*rng.pick(&[2usize, 10, 18])); m.xs.push([a as f64 * 3.7 + rng.range(-0.2, 0.2), b as f64 * 3.7 + rng.range(-0.2, 0.2), c as f64 * 3.7 + rng.range(-0.2, 0.2)]); } } }
